@@ -30,7 +30,7 @@ DB_METHODS = ("execute", "executescript", "commit", "close", "rollback")
 
 
 class Frame(object):
-    __slots__ = ("func", "fid", "self_term", "depth", "cells")
+    __slots__ = ("func", "fid", "self_term", "depth", "cells", "has_closure")
     _next = [0]
 
     def __init__(self, func, self_term, depth, cells=None):
@@ -40,6 +40,7 @@ class Frame(object):
         self.self_term = self_term
         self.depth = depth
         self.cells = cells  # enclosing Frame (for closures) or None
+        self.has_closure = False
 
 
 class State(object):
@@ -127,6 +128,9 @@ class InterpBase(object):
         self.loop_rounds = {}
         self.merges = {}
         self._merge_ids = {}
+        self._fold_cache = {}
+        self.pure_memo = {}
+        self._gen_cache = {}
         self._prepare()
 
     # ------------------------------------------------------------------
